@@ -104,7 +104,11 @@ def load_known():
 def finish(rep, level="other", extra_cov=None, trusted_base=None, checker_cmd=None):
     """Match findings against the committed known-findings file, print the result
     lines, write the evidence file, return the exit code."""
-    rep.check_floors()
+    floor_failures = [(n, f, fl) for n, f, fl in rep.floors if f < fl]
+    if floor_failures and not rep.findings:
+        rep.check_floors()          # nothing found and a rule matched too few sites: the analysis is broken, not the code
+    for n, f, fl in floor_failures:
+        print("NOTE: instance floor not met for %s (%d < %d) - reported together with the violations found" % (n, f, fl))
     known = [k for k in load_known() if k.get("property") == rep.prop and k.get("status") == "known"]
     kidx = {(k["property"], k["rule"], k["site"], k["key"]): k for k in known}
     new, listed = [], []
